@@ -291,10 +291,24 @@ def scn_isolation(T, case):
     T.prove("C19.plugins_allow_discovery_by_default", Plugin.allows_discovery.fget(object()) is True)
 
 
+# ------------------------------------------------------------------------------------ a plug-in manager per context (shared contract)
+def cases_context(tier):
+    from contracts import ctxcontract
+
+    return ctxcontract.cases(tier)
+
+
+def scn_context(T, case):
+    from contracts import ctxcontract
+
+    ctxcontract.scenario(T, case, "C19")
+
+
 SCENARIOS = [
     Scenario("operations_from_every_state", scn_ops, cases_ops, {"quick": 40, "thorough": 400}),
     Scenario("lookup_registration_lookup", scn_sequences, cases_sequences, {"quick": 20, "thorough": 100}),
     Scenario("construction_and_isolation", scn_isolation, cases_isolation, {"quick": 2, "thorough": 5}),
+    Scenario("plugin_manager_per_context", scn_context, cases_context, {"quick": 1, "thorough": 1}),
 ]
 
 MANIFEST = {
